@@ -49,6 +49,17 @@ def scenarios(rnd, tier):
         fr = c12.data_frame(rnd, rnd.randrange(2), c12.eapol_body(rnd, rnd.choice([0x008a, 0x010a, 0x13ca, 0x030a]), d, a))
         out.append(frames.mp_line(fr, rnd.randrange(3), rnd).replace("mp ", "eap ", 1))
         out.append(frames.mp_line(fr, rnd.randrange(3), rnd).replace("mp ", "cls ", 1))
+    # captures that end inside or right after the radiotap header (with and without an announced FCS)
+    import rtbuild
+    for fl in (0x00, 0x10):
+        for fields in ([1], [1, 2, 3, 5], []):
+            h = rtbuild.build([{"fields": fields, "values": {1: bytes([fl])}}], rnd)
+            for extra in range(0, 8):
+                tail = bytes(rnd.getrandbits(8) for _ in range(extra))
+                for op in ("cls", "mp", "eap"):
+                    out.append("%s 1 %s" % (op, (h + tail).hex()))
+            for cut in range(0, len(h)):
+                out.append("cls 1 " + (h[:cut].hex() or "-"))
     # declared x available key-data grid (includes "declared > 0, nothing present" and the 1024 cap)
     for d in (0, 1, 2, 16, 95, 1023, 1024, 1025, 2048, 65535):
         for a in (0, 1, 2, 16, 94, 95, 96, 1023, 1024, 1025):
